@@ -145,6 +145,8 @@ class FullDecider(MaxDepthDecider):
 class PositionIndependentGrowDecider(MaxDepthDecider):
     """PositionIndependentGrowDecider will always randomly expand one path of the tree to get to the max depth, and others randomly."""
 
+    expanding: bool = True
+
     def choose_production_alternatives(self, ty: type, alternatives: list[type], ctx: LocalSynthesisContext) -> type:
         assert len(alternatives) > 0, "No alternatives presented"
 
